@@ -257,7 +257,7 @@ class C05(Prop):
     props_file = 'Props/C05.v'
     imports = ['Model.Effects', 'Model.EffectsObs']
     quick_n = 500
-    thorough_n = 6000
+    thorough_n = 4000
     rule = ('forests of scripted events (1-3 roots, <= 20 events, depth <= 5, fan-out <= 3 per handler / 2 per generator '
             'step, 0-3 handlers per event): plain handlers that fire, stop(), raise; generator handlers firing from each '
             'of 1-3 steps; events cancelled right after being fired; nested complete-requesting events; task-set '
